@@ -3,9 +3,10 @@ CONSTANTS
   Props <- PropsA
   Avps <- AvpsA
   MaxOps = 0
-  Calls <- CallsQuick
+  Calls <- CallsPair
   MaxCalls = 4
   CheckUnderLock = FALSE
-  Forced = TRUE
-INVARIANTS LTypeOK LockOK RunningHeld AgreedOnly OncePerHeight
+  GateSave = TRUE
+  Modes = {"forced"}
+INVARIANTS LTypeOK LockOK RunningHeld AgreedOnly OncePerHeight 
 CHECK_DEADLOCK FALSE
